@@ -49,9 +49,10 @@ type oblResult struct {
 // runObligations discharges all obligations of the given translations in parallel.
 func runObligations(fts []*FT, dir string, timeoutS int, filter func(*Obl) bool, par int) []oblResult {
 	type job struct {
-		ft *FT
-		o  *Obl
-		q  string
+		ft  *FT
+		o   *Obl
+		q   string
+		axs []axTerm
 	}
 	var jobs []job
 	for _, ft := range fts {
@@ -60,7 +61,7 @@ func runObligations(fts []*FT, dir string, timeoutS int, filter func(*Obl) bool,
 			if filter != nil && !filter(o) {
 				continue
 			}
-			jobs = append(jobs, job{ft, o, ft.BuildQuery(o, axs)})
+			jobs = append(jobs, job{ft, o, ft.BuildQuery(o, axs), axs})
 		}
 	}
 	out := make([]oblResult, len(jobs))
@@ -76,7 +77,22 @@ func runObligations(fts []*FT, dir string, timeoutS int, filter func(*Obl) bool,
 				out[i] = oblResult{j.o, SolveResult{Status: "error", Output: "query too large", Size: len(j.q)}, j.ft}
 				return
 			}
-			out[i] = oblResult{j.o, Solve(j.q, dir, j.o.Name, timeoutS, false), j.ft}
+			// stage 1: sliced query, short timeout; stage 2: full query (solver heuristics are chaotic, so both are tried)
+			t1 := timeoutS / 3
+			if t1 < 3 {
+				t1 = 3
+			}
+			r := Solve(j.q, dir, j.o.Name, t1, false)
+			if r.Status != "unsat" && os.Getenv("PVC_NOSLICE") == "" {
+				full := j.ft.buildQueryOpt(j.o, j.axs, false)
+				r2 := Solve(full, dir, j.o.Name+"_full", timeoutS, false)
+				for k, v := range r.All {
+					r2.All["sliced:"+k] = v
+				}
+				r2.Secs += r.Secs
+				r = r2
+			}
+			out[i] = oblResult{j.o, r, j.ft}
 		}(i, j)
 	}
 	wg.Wait()
